@@ -49,6 +49,25 @@ CLAIMS = {
         "compared as algebraic normal forms with accepted alternatives listed in the rule.",
    technique="lazy-cache typestate + path-event sets + normal-form comparison of getter expressions (AST)",
    design="4 C19"),
+ 'C06': dict(
+   text="Schedule clause decided for ALL completion orders and all nproc by commutation: the only as_completed loop in the package may "
+        "do nothing but store results[submission index] into a pre-sized list (SCHED, exhaustive over such loops), the merge runs over "
+        "zip(labels, slices, results) in submission order and is the same program as the serial branch (SIB). Refinement clause as "
+        "necessary structure: children get fresh labels above a running maximum starting at max_label, stores go into a copy inside the "
+        "parent cutout and source mask (MERGE), final relabel applied to array and map (RELABEL), options forwarded (FWD), input image "
+        "never written (A1).",
+   note="Not decided: the watershed partitions each parent exactly and children have >= npixels. Trusted: spawn-context workers share no "
+        "state; future.result() returns the worker's value. MERGE compares normal forms of the merge statements (accepted forms in the rule).",
+   technique="effect-commutation rule over the as_completed loop + sibling-block comparison + normal forms + alias analysis (AST)",
+   design="4 C06, 3.5"),
+ 'C17': dict(
+   text="Per-source clause decided for every position list: loop-carried state rules LP1/LP1b (no container entry or pre-loop array carries a "
+        "per-source value into the next iteration), LP4/T-FRAME (data, mask, error cut with the large slices of one overlap computation, "
+        "footprint with the small ones; offsets restored with the matching axis), T-AXIS/T-MIRROR (x/y pairing and copy-paste signatures "
+        "over the centroid modules), A1 (inputs never written), plus the moment / quadratic-vertex formulas as normal forms.",
+   note="Not decided: exact recovery on symmetric inputs beyond the formulas' normal forms; Gaussian fit convergence.",
+   technique="loop-carried dependence analysis + axis tag system + mirror (copy-paste) detection + normal forms (AST)",
+   design="4 C17, 3.4, 3.7"),
 }
 
 fix_commits = subprocess.run(['git', '-C', '/repo', 'log', '--format=%h %s', '8203d59..HEAD'],
